@@ -1,7 +1,7 @@
 """Registry of sidecar contracts, object shapes, lemmas and assumed axioms."""
 import importlib
 
-MODULES = ['shapes', 'json_util', 'created_files', 'cache', 'build_dirs', 'file_builder']
+MODULES = ['shapes', 'json_util', 'created_files', 'cache', 'build_dirs', 'file_backups', 'executor', 'file_builder']
 
 CONTRACTS = {}      # qualname -> Contract (used at call sites and verified)
 VERIFY = {}         # verification task key -> Contract (main contracts + variants)
